@@ -112,3 +112,53 @@ def shrink_candidates(case):
                     c = copy.deepcopy(case)
                     del c['machine']['events'][ei][1][ti][key][i]
                     yield c
+
+
+def extra_checks(tier, seed):
+    """(1) the flat asyncio classes (asyncio.py re-implements Transition.execute / _change_state): the same cases with
+    callback lists trimmed to one entry (nothing for asyncio.gather to interleave), every call awaited to completion,
+    against the flat Coq engine; (2) callbacks that call back into an UNQUEUED machine (a trigger issued from a
+    callback is processed at once, inside the callback): flat classes against the re-entrant engine Reent.v - the
+    state seen by every callback, reflexive and internal transitions included, with the model moved in between."""
+    import random
+    import framework as F
+    import c05
+    out = []
+    n = 400 if tier == 'quick' else 10000
+    cases = []
+    for i in range(n):
+        rng = random.Random('C01a-%d-%d' % (seed, i))
+        c = flat.trim_flat(flat.gen_case(rng, malformed=False, p_unknown=0.0))
+        c['cls'] = ['AsyncMachine', 'AsyncGraphMachine'][i % 2]
+        c['env'] = dict(default=c['env']['default'], bypos={p: (r[0], None, []) for p, r in c['env']['bypos'].items()},
+                        bycb={k: (r[0], None, []) for k, r in c['env']['bycb'].items()})
+        cases.append(c)
+    mo = F.run_model(0, [flat.enc_case(c) for c in cases])
+    io = F.run_impl('flat', 'impl_flat_async', cases)
+    bad = [(c, m, i) for c, m, i in zip(cases, mo, io) if m != i]
+    internal = sum(1 for c, m in zip(cases, mo) if isinstance(m, list) and m[0] == 1
+                   for st in m[1] if st[1] == [0, True] and not any(it[0] in (6, 7) for it in st[0]))
+    detail = dict(cases=len(cases), disagreements=len(bad), executed_internal_transitions=internal)
+    if bad:
+        c, m, i = bad[0]
+        out.append(('async_flat_order', False, detail, dict(kind='counterexample', stream='flat asyncio classes', case=c, model_obs=m, impl_obs=i)))
+    else:
+        out.append(('async_flat_order', True, detail, {}))
+    n2 = 300 if tier == 'quick' else 8000
+    cases = []
+    for i in range(n2):
+        rng = random.Random('C01r-%d-%d' % (seed, i))
+        c = c05.gen(rng, 3 * i + 2, tier)          # the unqueued third of C05's generator
+        c['cls'] = ['Machine', 'LockedMachine', 'GraphMachine'][i % 3]
+        cases.append(c)
+    mo = F.run_model(c05.KIND, [c05.enc(c) for c in cases])
+    io = F.run_impl('c05', 'impl_queue', cases)
+    bad = [(c, c05.canon(c, m), c05.canon(c, i)) for c, m, i in zip(cases, mo, io) if c05.canon(c, m) != c05.canon(c, i)]
+    detail = dict(cases=len(cases), disagreements=len(bad))
+    if bad:
+        c, m, i = bad[0]
+        out.append(('unqueued_reentrant_order', False, detail,
+                    dict(kind='counterexample', stream='unqueued machine, callbacks that trigger', case=c, model_obs=m, impl_obs=i)))
+    else:
+        out.append(('unqueued_reentrant_order', True, detail, {}))
+    return out
